@@ -95,6 +95,12 @@ def call_op(case, A, B, number, large_angles=True):
         return (A.scale(f), A * f, f * A)[hk % 3]
     if op == "divide":
         return A / number(rat(p[0]))
+    if op in ("scale2D", "scale3D"):
+        return getattr(A, op)(number(rat(p[0])))
+    if op in ("neg2D", "neg3D"):
+        return getattr(A, op)
+    if op in ("transform2D_partial", "transform3D_partial"):
+        return getattr(A, op[:11])(matrix_of(p[0], number))
     if op in ("rotateZ", "rotateX", "rotateY"):
         return getattr(A, op)(number(angle_of(p[0], k)))
     if op == "rotate_euler":
@@ -117,6 +123,12 @@ def call_op(case, A, B, number, large_angles=True):
         return getattr(A, op[:6])(beta=number(rat(p[0])))
     if op.startswith("boost") and op.endswith("_gamma"):
         return getattr(A, op[:6])(gamma=number(rat(p[0])))
+    if op == "add" and hk % 3 == 0:
+        return A + B
+    if op == "subtract" and hk % 3 == 0:
+        return A - B
+    if op == "dot" and hk % 3 == 0:
+        return A @ B
     if op in BINARY:
         return getattr(A, op)(B)
     if op in ("is_parallel", "is_antiparallel", "is_perpendicular"):
@@ -171,7 +183,7 @@ def maxabs(xs):
 def param_scale(case):
     op, p = case["op"], case["p"]
     s = mpf(1)
-    if op == "scale":
+    if op in ("scale", "scale2D", "scale3D"):
         s = 1 + abs(rat(p[0]))
     elif op == "divide":
         s = 1 + 1 / abs(rat(p[0]))
@@ -211,6 +223,8 @@ def expected_of(case):
         return "vec", [terms.ev(c) for c in e[1]], False
     if e[0] == "bool":
         return "bool", e[1], e[1] == "either"
+    if e[0] == "partial":
+        return "partial", (e[1], [terms.ev(c) for c in e[2]]), False
     raise ValueError(e)
 
 
@@ -311,6 +325,8 @@ def run_case(case, classes, number, tier, mode, tol):
         scale = scale * scale
     if kind == "vec":
         scale = max(scale, 1 + maxabs(exp))
+    elif kind == "partial":
+        scale = max(scale, 1 + maxabs(exp[1]))
     elif kind == "num" and _finite(exp):
         scale = max(scale, 1 + abs(exp))
     eps = tol * scale
@@ -342,7 +358,7 @@ def run_case(case, classes, number, tier, mode, tol):
             results.append((sa, sb, bool(raw), None))
         else:
             rsig, st, cart = project(raw)
-            results.append((sa, sb, cart, (rsig, st)))
+            results.append((sa, sb, cart, (rsig, st, coords.stored_of(A))))
     if not results:
         return records, hits, 0
     canon = (CANON[len(va)], CANON[len(vb)] if vb is not None else None)
@@ -375,7 +391,28 @@ def run_case(case, classes, number, tier, mode, tol):
                                 "got": mpmath.nstr(val, 30), "want": mpmath.nstr(exp, 30)})
             continue
         # vector result
-        rsig, st = extra
+        rsig, st, ast = extra
+        if kind == "partial":
+            # the stored-record contract of scaleN / negN / transformN on higher-dimensional vectors
+            npart, pexp = exp
+            compared += 1
+            if len(rsig) != len(sa):
+                records.append({"kind": blame, "sig": [sa, sb], "got": f"dimension {len(rsig) + 1}", "want": f"dimension {len(sa) + 1}"})
+                continue
+            # bit-for-bit: the stored higher coordinates of the result are those of the operand
+            higher_ok = all(rsig[g] == sa[g] and st[g + 1] == ast[g + 1] for g in range(npart - 1, len(sa)))
+            if not higher_ok:
+                records.append({"kind": blame, "sig": [sa, sb], "rsig": rsig, "got": [mpmath.nstr(c, 25) for c in st],
+                                "want": "stored higher coordinates " + str([mpmath.nstr(c, 25) for c in ast[npart:]]) + " untouched", "tag": "partial-higher"})
+                continue
+            # first N Cartesian components: for N = 3 the z of the result is read in the result's own system
+            if npart == 3 and not result_representable(list(pexp) + [val[3]] if len(val) > 3 else list(pexp), rsig):
+                continue
+            bad = [i for i in range(npart) if not close_num(val[i], pexp[i], eps)]
+            if bad:
+                records.append({"kind": blame, "sig": [sa, sb], "rsig": rsig, "bad": bad, "got": [mpmath.nstr(c, 25) for c in val],
+                                "want": [mpmath.nstr(c, 25) for c in pexp], "tag": "partial-lower"})
+            continue
         if len(val) != len(exp):
             records.append({"kind": "C02", "sig": [sa, sb], "got": f"dimension {len(val)}", "want": f"dimension {len(exp)}"})
             continue
